@@ -177,9 +177,14 @@ func (k Keeper) cleanupTimedOutBatches(ctx sdk.Context) {
 
 func (k Keeper) cleanupTimeOutBridgeCall(ctx sdk.Context) {
 	externalBlockHeight := k.GetLastObservedBlockHeight(ctx).ExternalBlockHeight
+	// a call whose result has been observed is settled by executing that result, not by the timeout
+	pendingResults := k.PendingBridgeCallResults(ctx)
 	k.IterateOutgoingBridgeCalls(ctx, func(data *types.OutgoingBridgeCall) bool {
 		if data.Timeout > externalBlockHeight {
 			return true
+		}
+		if pendingResults[data.Nonce] {
+			return false
 		}
 		// 1. handler bridge call refund
 		k.HandleOutgoingBridgeCallRefund(ctx, data)
